@@ -7,9 +7,16 @@ Loops take a fuel argument; the result is `none` when the fuel is exhausted
 namespace Arp
 
 /-- `scale` -/
-def Flt.scale (x : Flt) (k : Int) (rm : RM) : Flt :=
+def Flt.scaleCore (x : Flt) (k : Int) (rm : RM) : Flt :=
   if !x.isNormal then x else
   (Flt.new x.sem x.sign (x.exp + k) x.mant).normalize rm .zero
+
+/-- `upper - lower + precision + 1`: scaling by more than this cannot change the rounded result -/
+def Sem.scaleSpan (s : Sem) : Int := s.emax - s.emin + (s.p : Int) + 1
+
+/-- `scale`, functions.rs: the amount is clamped (`i64::clamp`) so that `exp + scale` stays in `i64` -/
+def Flt.scale (x : Flt) (k : Int) (rm : RM) : Flt :=
+  x.scaleCore (max (-x.sem.scaleSpan) (min x.sem.scaleSpan k)) rm
 
 /-- operator `*` etc.: the format's own mode -/
 def Flt.mul (a b : Flt) : Flt := mulWithRm a b a.sem.rm
